@@ -3,8 +3,8 @@
 // an ARBITRARY Inv_SM state; every listener's cursor is arbitrary. One call of the real entry point is checked against the log model.
 // reserve_slot / try_send_reserved / send_with_async start with `leak_slot()`, which is todo!() upstream: not harnessed (outside C08/C20).
 // @module multi::channels::reference::mmap_log
-// @sizes mlog_proofs: cap2m1=quick cap4m2=quick cap4m4=thorough
-// @jobs 8 thorough=4
+// @sizes mlog_proofs: cap2m2=quick cap4m2=thorough cap4m4=thorough
+// @jobs 5 thorough=2
 #[allow(unused_imports)] use super::*;
 #[allow(unused_imports)] use crate::streams_manager::verif_hooks as sm;
 #[allow(unused_imports)] use crate::ogre_std::ogre_queues::log_topics::mmap_meta::{verif_hooks as mm, MMapMetaSubscriber};
@@ -154,7 +154,7 @@ pub(crate) mod proofs {
         }
     } )* } }
     mlog_proofs! {
-        cap2m1: 2, 1, 6;
+        cap2m2: 2, 2, 6;
         cap4m2: 4, 2, 8;
         cap4m4: 4, 4, 8;
     }
